@@ -186,7 +186,7 @@ META["C09"] = {
 
 META["C15"] = {
     "title": "finalize runs its callback exactly once per subscription",
-    "rule": "cases = (0-2 upstream operators incl. early-terminating ones, hot Subject or stashed create() handle as source, finalize | finalize_threads directly above the probe, history of length <= 6 quick / <= 10 thorough over item / complete / error / unsubscribe (terminals repeated through cloned handles), plain unsubscribe or guard drop). Non-trivial: the history contains at least two terminating triggers (e.g. complete then unsubscribe); distinct = hash(case). first_trigger_* counters show which event ended the subscriptions. Exhaustively, every history of length <= 4 quick / <= 5 thorough over item / unsubscribe(k<3) / complete / error on THREE subscriptions made from clones of one finalize(..) / finalize_threads(..) value over one hot subject: after every step the number of callback runs equals the number of subscriptions that have ended (counter histories_over_cloned_finalize_values). A quarter of the random cases stack a second finalize directly above the one under test (both owe their callback at the same event); over create sources a third put take(1|2)/first BELOW finalize, where the event that ends finalize's own subscription is the terminal that reaches it from above (recorded by a transparent spy), not the subscriber's. When a history unsubscribes a pipeline over a hot source, the finalize callback itself pushes one more item into that source (user code in the callback): nothing may reach the subscriber once the callback has run. Thread part also covers hot.finalize_threads(f) behind subscribe_on with the subscribing task on a worker thread and an unsubscribing thread: if the inner subscription was made (seen by a spy above finalize) and the handle was unsubscribed, the callback ran exactly once. The racing-thread part (terminating thread vs unsubscribing thread) runs under the baton scheduler (thread_* counters).",
+    "rule": "cases = (0-2 upstream operators incl. early-terminating ones, hot Subject or stashed create() handle as source, finalize | finalize_threads directly above the probe, history of length <= 6 quick / <= 10 thorough over item / complete / error / unsubscribe (terminals repeated through cloned handles), plain unsubscribe or guard drop). Non-trivial: the history contains at least two terminating triggers (e.g. complete then unsubscribe); distinct = hash(case). first_trigger_* counters show which event ended the subscriptions. Exhaustively, every history of length <= 4 quick / <= 5 thorough over item / unsubscribe(k<3) / complete / error on THREE subscriptions made from clones of one finalize(..) / finalize_threads(..) value over one hot subject: after every step the number of callback runs equals the number of subscriptions that have ended (counter histories_over_cloned_finalize_values). A quarter of the random cases stack a second finalize directly above the one under test (both owe their callback at the same event); over create sources a third put take(1|2)/first BELOW finalize, where the event that ends finalize's own subscription is the terminal that reaches it from above (recorded by a transparent spy), not the subscriber's. When a history unsubscribes a pipeline over a hot source, the finalize callback itself pushes one more item into that source (user code in the callback): nothing may reach the subscriber once the callback has run. Thread part also covers hot.finalize_threads(f) behind subscribe_on with the subscribing task on a worker thread and an unsubscribing thread: if the inner subscription was made (seen by a spy above finalize) and the handle was unsubscribed, the callback ran exactly once. Histories may also end without any ending event - the plain handle is merely dropped, or the source goes away without a terminal (counter histories_ending_without_any_event): the callback must then not have run (a SubscriptionGuard is not used there: dropping one is an unsubscribe). The racing-thread part (terminating thread vs unsubscribing thread) runs under the baton scheduler (thread_* counters).",
     "assumptions": COMMON_ASSUME + [
         "finalize is placed last, so 'the subscription is completed / failed' is exactly 'the probe saw the terminal'",
         "'right after' = before the next step of the history begins, and for an unsubscription before unsubscribe() returns",
@@ -195,12 +195,12 @@ META["C15"] = {
     "level_text": "Exploration over sampled histories; counter == 1 exactly after the first trigger, never before, never again.",
     "level_note": "Trusted: probe and log stamps of the harness.",
     "design_ref": "DESIGN.md §5 C15",
-    "require": {"quick": {"first_trigger_unsub": 5000, "first_trigger_error": 5000, "histories_over_cloned_finalize_values": 3000}, "thorough": {"first_trigger_unsub": 5000, "histories_over_cloned_finalize_values": 18000}},
+    "require": {"quick": {"first_trigger_unsub": 5000, "first_trigger_error": 5000, "histories_over_cloned_finalize_values": 3000, "histories_ending_without_any_event": 20000}, "thorough": {"first_trigger_unsub": 5000, "histories_over_cloned_finalize_values": 18000}},
 }
 
 META["C20"] = {
     "title": "group_by sends every item to exactly one group, in order",
-    "rule": "cases = (key function in {constant, identity, mod 2, mod 3}, script, group subject type Subject|SubjectThreads, hot Subject or cold create source). Enumerated: every script over {0,1,2,3} up to length 5 quick / 7 thorough x terminal {none, complete, error}; plus seeded random scripts up to length 8/12 with post-terminal events. A probe is attached to each group inside the outer observer's next (as the group is announced). Hot cases are additionally flattened back through group_by+flat_map and compared with the source. group_by takes an FnMut: every enumerated script also runs with stateful discriminators (key of the i-th item handed over = i/n for n in 1..3, whatever the item; counter cases_with_a_stateful_discriminator), as does a fifth of the random scripts. A third of the random scripts and half of the stateful enumerated ones use a key type whose Hash is coarser than its Eq (all even keys collide, all odd keys collide; counter cases_with_colliding_key_hashes); a third attach a second subscriber to every group ahead of the probe and unsubscribe it at once (counter cases_with_a_closed_subscriber_ahead_in_each_group). A quarter of the hot plain-key cases subscribe each group only after 0-2 further source events (counter cases_with_groups_subscribed_late): the group is owed the later items of its key and the terminal. In a quarter of the cases the observer of the stream of groups reports finished as soon as any group subscriber has received a terminal (a flattening consumer): every group must still get the terminal. Non-trivial: at least two groups and one group with at least two items; distinct = hash(case).",
+    "rule": "cases = (key function in {constant, identity, mod 2, mod 3}, script, group subject type Subject|SubjectThreads, hot Subject or cold create source). Enumerated: every script over {0,1,2,3} up to length 5 quick / 7 thorough x terminal {none, complete, error}; plus seeded random scripts up to length 8/12 with post-terminal events. A probe is attached to each group inside the outer observer's next (as the group is announced). Hot cases are additionally flattened back through group_by+flat_map and compared with the source. group_by takes an FnMut: every enumerated script also runs with stateful discriminators (key of the i-th item handed over = i/n for n in 1..3, whatever the item; counter cases_with_a_stateful_discriminator), as does a fifth of the random scripts. A third of the random scripts and half of the stateful enumerated ones use a key type whose Hash is coarser than its Eq (all even keys collide, all odd keys collide; counter cases_with_colliding_key_hashes); a third attach a second subscriber to every group ahead of the probe and unsubscribe it at once (counter cases_with_a_closed_subscriber_ahead_in_each_group). A quarter of the hot plain-key cases subscribe each group only after 0-2 further source events (counter cases_with_groups_subscribed_late): the group is owed the later items of its key and the terminal. In a quarter of the cases the observer of the stream of groups reports finished as soon as any group subscriber has received a terminal (a flattening consumer): every group must still get the terminal. In another quarter the consumer of the stream of groups finishes after n announcements (take(n)-like; counter cases_where_the_outer_observer_finishes_after_n_groups): groups announced until then keep receiving the items of their keys in order (a prefix at least up to the point where the consumer finished; terminals to them may be withheld), no group is announced twice and nothing is announced afterwards. Late group subscriptions are also made twice at the same moment (twin subscribers): both are owed the same items. Non-trivial: at least two groups and one group with at least two items; distinct = hash(case).",
     "assumptions": COMMON_ASSUME + [
         "the relative order of the groups' terminals and the outer terminal is not part of the property and not checked",
         "'the key of an item' is what the discriminator returns when it is applied once to every source item in source order (it is an FnMut in the API); the pure functions of the stated family cannot tell, the stateful ones can",
@@ -209,7 +209,7 @@ META["C20"] = {
     "level_text": "Exploration: enumerated scripts x key functions plus random scripts, each compared with the partition model.",
     "level_note": "Trusted: partition model in harness/src/props/c20.rs, probes.",
     "design_ref": "DESIGN.md §5 C20",
-    "require": {"quick": {"group_subject_types": 2, "cases_with_a_stateful_discriminator": 20000, "cases_with_colliding_key_hashes": 10000, "cases_with_a_closed_subscriber_ahead_in_each_group": 10000}, "thorough": {"group_subject_types": 2, "cases_with_a_stateful_discriminator": 500000}},
+    "require": {"quick": {"group_subject_types": 2, "cases_with_a_stateful_discriminator": 20000, "cases_with_colliding_key_hashes": 10000, "cases_with_a_closed_subscriber_ahead_in_each_group": 10000, "cases_where_the_outer_observer_finishes_after_n_groups": 10000}, "thorough": {"group_subject_types": 2, "cases_with_a_stateful_discriminator": 500000}},
 }
 
 META["C16"] = {
@@ -243,7 +243,7 @@ META["C19"] = {
 
 META["C14"] = {
     "title": "Conversions and completion status report the real outcome and never hang",
-    "rule": "cases = (conversion in to_future / to_stream / complete_status over Subject or SubjectThreads, script of 0..n items (quick n=4, thorough n=6) then complete / error / neither, optionally followed by a post-terminal item, with 0-2 manual polls placed before, between and after the events, polled with a counting waker; optionally another subscriber of the same subject ahead of the conversion, already unsubscribed or still open). After a terminal the future/stream is polled at most twice more per element and must be ready; a poll that returned Pending before the terminal must have been woken by it; complete_status flags are compared after every step with what the probe saw and with the source calls that have returned and wait_for_end is called once the source has terminated. Plus the gate scenarios: a real waiter thread in wait_for_end is stopped at the hooked point of StatusFuture::poll while the producer thread runs complete()/error() (placements: terminal before the wait, inside the hooked window, after the waiter's first poll) x {complete, error}. Plus free-running two-thread races (quick 3000, thorough 300000): a real waiter thread blocks in block_on(to_future) / block_on(to_stream.collect) / a busy poll_next loop on to_stream / wait_for_end on a SubjectThreads while the producing thread emits 0-3 items and a terminal with seeded yields, sleeps and spins (and the hook-point jitter on half of them); the waiter must return (bounded progress: within 20 s of the producer's terminal call having returned) with exactly the modelled outcome. Every manual poll uses a waker of its own; the waker handed over by the most recent pending poll is the one that must be woken. A further battery (counter status_above_an_early_terminator_cases) puts complete_status() above take(0|1|2) over a `create` source driven through its stashed Subscriber / SubscriberThreads (0-3 items then complete / error / nothing): the flags must follow the source's calls and wait_for_end must return once it terminated. Non-trivial: the source terminated while a poll had returned Pending, or terminated by error; distinct = hash(case).",
+    "rule": "cases = (conversion in to_future / to_stream / complete_status over Subject or SubjectThreads, script of 0..n items (quick n=4, thorough n=6) then complete / error / neither, optionally followed by a post-terminal item, with 0-2 manual polls placed before, between and after the events, polled with a counting waker; optionally another subscriber of the same subject ahead of the conversion, already unsubscribed or still open; in a quarter of the cases the conversion is attached to subject.share() / share_threads() whose first subscriber, a take(1), has already been served by one item and finished - counter conversions_attached_through_a_share). After a terminal the future/stream is polled at most twice more per element and must be ready; a poll that returned Pending before the terminal must have been woken by it; complete_status flags are compared after every step with what the probe saw and with the source calls that have returned and wait_for_end is called once the source has terminated. Plus the gate scenarios: a real waiter thread in wait_for_end is stopped at the hooked point of StatusFuture::poll while the producer thread runs complete()/error() (placements: terminal before the wait, inside the hooked window, after the waiter's first poll) x {complete, error}. Plus free-running two-thread races (quick 3000, thorough 300000): a real waiter thread blocks in block_on(to_future) / block_on(to_stream.collect) / a busy poll_next loop on to_stream / wait_for_end on a SubjectThreads while the producing thread emits 0-3 items and a terminal with seeded yields, sleeps and spins (and the hook-point jitter on half of them); the waiter must return (bounded progress: within 20 s of the producer's terminal call having returned) with exactly the modelled outcome. Every manual poll uses a waker of its own; the waker handed over by the most recent pending poll is the one that must be woken. A further battery (counter status_above_an_early_terminator_cases) puts complete_status() above take(0|1|2) over a `create` source driven through its stashed Subscriber / SubscriberThreads (0-3 items then complete / error / nothing): the flags must follow the source's calls and wait_for_end must return once it terminated. Non-trivial: the source terminated while a poll had returned Pending, or terminated by error; distinct = hash(case).",
     "assumptions": COMMON_ASSUME + [
         "for 'items then error' to_future() may resolve to the error or to MultipleValues (the documentation fixes only the pure cases); it must resolve",
         "'never hang' is read as bounded progress: ready within two polls after termination (logical); in the gate scenarios the waiter gets 20 s, and only after the logical witness (waiter reached the hooked point, producer's terminal call returned) exists; no witness + timeout = inconclusive",
@@ -253,12 +253,12 @@ META["C14"] = {
     "level_text": "Exploration over sampled poll/event interleavings, plus 6 orchestrated two-thread placements repeated per run and thousands of free-running waiter/producer thread races.",
     "level_note": "Trusted: counting waker, the status_window hook placement (between waker registration and flag check of StatusFuture::poll).",
     "design_ref": "DESIGN.md §5 C14",
-    "require": {"quick": {"conversions_covered": 3, "gate_scenarios": 12, "two_thread_races": 2000}, "thorough": {"conversions_covered": 3, "gate_scenarios": 60, "two_thread_races": 100000}},
+    "require": {"quick": {"conversions_covered": 3, "gate_scenarios": 12, "two_thread_races": 2000, "conversions_attached_through_a_share": 50000}, "thorough": {"conversions_covered": 3, "gate_scenarios": 60, "two_thread_races": 100000}},
 }
 
 META["C11"] = {
     "title": "publish/connect and share subscribe the source once and multicast",
-    "rule": "cases = (share | share_threads | publish::<Subject>()+fork()/connect(), source hot Subject behind a tap counter | deferred cold synchronous source behind a subscription counter | interval(5ms) on the virtual clock behind a tap counter, history of length <= 10 quick / <= 18 thorough over subscribe(k) / unsubscribe(k) / source-emit / source-complete / connect / one-period tick, k < 3, one subscription per slot). Checked in lock step against a multicast model: who was subscribed at each emission receives it once, in order; the source is not subscribed before connect(); it is subscribed at most once; after the last subscriber's unsubscribe() returned the tap counter no longer moves on later source events (hot) or one period later (interval). Non-trivial: at least two subscribers overlapped and one left before the source ended; distinct = hash(case). Thread part (scenario share_threads[multi]): 2-3 probes subscribed to clones of one hot.share_threads(), 2-3 threads each running up to 4 of next / unsubscribe(k) / subscribe (never re-joining after the count reached zero) plus an occasional terminal, scheduled at the hooked lock points (random, PCT and preemption-bounded systematic schedules) and then free-running on OS threads with seeded jitter; oracle over call/return stamps: a subscriber whose subscribe() returned before next(v) was called and whose unsubscribe() was not called before it returned receives v exactly once, all subscribers agree on one order, nothing begins on a probe after its unsubscribe() returned, every call returns. Subscribers also join through take(1) (finishing by themselves after one item while keeping their handle) and through start_with([0]).first() (finished before the share itself is subscribed).",
+    "rule": "cases = (share | share_threads | publish::<Subject>()+fork()/connect(), source hot Subject behind a tap counter | deferred cold synchronous source behind a subscription counter | interval(5ms) on the virtual clock behind a tap counter, history of length <= 10 quick / <= 18 thorough over subscribe(k) / unsubscribe(k) / source-emit / source-complete / connect / one-period tick, k < 3, one subscription per slot). Checked in lock step against a multicast model: who was subscribed at each emission receives it once, in order; the source is not subscribed before connect(); it is subscribed at most once; after the last subscriber's unsubscribe() returned the tap counter no longer moves on later source events (hot) or one period later (interval); conversely, while a publish() is connected and its source has not ended, the periodic source must keep ticking whoever joins or leaves (source_retired_while_connected). Non-trivial: at least two subscribers overlapped and one left before the source ended; distinct = hash(case). Thread part (scenario share_threads[multi]): 2-3 probes subscribed to clones of one hot.share_threads(), 2-3 threads each running up to 4 of next / unsubscribe(k) / subscribe (never re-joining after the count reached zero) plus an occasional terminal, scheduled at the hooked lock points (random, PCT and preemption-bounded systematic schedules) and then free-running on OS threads with seeded jitter; oracle over call/return stamps: a subscriber whose subscribe() returned before next(v) was called and whose unsubscribe() was not called before it returned receives v exactly once, all subscribers agree on one order, nothing begins on a probe after its unsubscribe() returned, every call returns. Subscribers also join through take(1) (finishing by themselves after one item while keeping their handle) and through start_with([0]).first() (finished before the share itself is subscribed).",
     "assumptions": COMMON_ASSUME + [
         "whether a share re-connects when somebody joins after its subscriber count dropped to zero is unspecified; such re-joins are generated for hot sources only (counter histories_with_a_rejoin_after_everybody_left) and the re-joined subscriber is owed exactly the emissions the shared source is seen to make (upstream tap), nothing is demanded about terminals after a re-join; thread scenarios never re-join",
         "a cold synchronous source emits during the connecting subscription: only subscribers present at that moment receive those items",
@@ -285,7 +285,7 @@ META["C13"] = {
 
 META["C17"] = {
     "title": "is_closed() is sound and composites tear down late additions",
-    "rule": "two batteries. (a) composite histories: random histories of length <= 8 quick / <= 13 thorough over append / append-nested-composite / clone / unsubscribe / retain / sample on MultiSubscription and MultiSubscriptionThreads with tracked children: every child appended before unsubscribe() is unsubscribed exactly once, every remaining clone reports closed afterwards, a child appended afterwards has been unsubscribed by the time append returns. (b) random pipelines over the whole catalogue (so that unit, Subscriber, pair, composite, task-handle, ref-count, finalizer and boxed subscriptions all occur), is_closed() of the returned subscription sampled before every explorer step: once it returned true no notification may be delivered through that subscription and it may never return false again. (c) a direct battery on ZipSubscription (all four closed/open combinations of its halves), SubscriptionGuard, MutRc<Option<S>> handle clones and BoxSubscription with counting children. (d) MultiSubscriptionThreads under the lock-point scheduler: unsubscribe() on one thread, 1-3 append() calls on a second, is_closed() samples on a third, over 0-2 children appended up front; afterwards the composite reports closed, so every child must have been unsubscribed exactly once, and is_closed() may not return to false once the composite holds an open child. (f) a thread asking is_closed() six times on the subscription of hot.observe_on_threads / delay_threads(0) / debounce / buffer_with_time while the source thread emits 0-2 items and completes or fails and a worker thread runs the scheduled tasks (counter is_closed_sampling_races): after a sample returned true nothing may begin on the probe and no later sample may be false. (g) is_closed() on a clone of a SubjectThreads from one thread while others emit, terminate, subscribe and unsubscribe: nothing is delivered to anybody after it returned true. (e) unsubscribe() racing the worker thread that runs the scheduled task of observe_on_threads / delay_threads / subscribe_on / debounce / throttle_time / buffer_with_time / buffer_with_count_and_time / sample(interval) (task handles): nothing may begin on the probe after unsubscribe() returned. Histories in (a) also contain children whose own unsubscribe() appends one more child to the composite (an append in the middle of the teardown, counter histories_with_an_append_during_teardown): it must not be left running. subscription_types_covered lists every subscription type that occurred. Non-trivial: (a) an append fell after the unsubscribe; (b) is_closed() was sampled both false and true in the run; distinct = hash(case).",
+    "rule": "two batteries. (a) composite histories: random histories of length <= 8 quick / <= 13 thorough over append / append-nested-composite / clone / unsubscribe / retain / sample on MultiSubscription and MultiSubscriptionThreads with tracked children: every child appended before unsubscribe() is unsubscribed exactly once, every remaining clone reports closed afterwards, a child appended afterwards has been unsubscribed by the time append returns. (b) random pipelines over the whole catalogue (so that unit, Subscriber, pair, composite, task-handle, ref-count, finalizer and boxed subscriptions all occur), is_closed() of the returned subscription sampled before every explorer step: once it returned true no notification may be delivered through that subscription and it may never return false again. (c) a direct battery on ZipSubscription (all four closed/open combinations of its halves), SubscriptionGuard, MutRc<Option<S>> handle clones and BoxSubscription with counting children. (d) MultiSubscriptionThreads under the lock-point scheduler: unsubscribe() on one thread, 1-3 append() calls on a second, is_closed() samples on a third, over 0-2 children appended up front; afterwards the composite reports closed, so every child must have been unsubscribed exactly once, and is_closed() may not return to false once the composite holds an open child. (f) a thread asking is_closed() six times on the subscription of hot.observe_on_threads / delay_threads(0) / debounce / buffer_with_time while the source thread emits 0-2 items and completes or fails and a worker thread runs the scheduled tasks (counter is_closed_sampling_races): after a sample returned true nothing may begin on the probe and no later sample may be false. (g) is_closed() on a clone of a SubjectThreads from one thread while others emit, terminate, subscribe and unsubscribe: nothing is delivered to anybody after it returned true. (e) unsubscribe() racing the worker thread that runs the scheduled task of observe_on_threads / delay_threads / subscribe_on / debounce / throttle_time / buffer_with_time / buffer_with_count_and_time / sample(interval) (task handles): nothing may begin on the probe after unsubscribe() returned. Histories in (a) also append children to a nested composite that was itself appended earlier, possibly after is_closed() was asked on the outer one (counter histories_with_a_child_added_to_a_nested_composite), and contain children whose own unsubscribe() appends one more child to the composite (an append in the middle of the teardown, counter histories_with_an_append_during_teardown): it must not be left running. subscription_types_covered lists every subscription type that occurred. Non-trivial: (a) an append fell after the unsubscribe; (b) is_closed() was sampled both false and true in the run; distinct = hash(case).",
     "assumptions": COMMON_ASSUME + [
         "`false` is always acceptable (the property is one-directional)",
         "a live composite without children answers is_closed() == true (vacuously: nothing can be delivered through it) until its first child is appended; this is how delay/observe_on report closed after their last task, and it is not treated as 'returned true, later false'",
@@ -294,7 +294,7 @@ META["C17"] = {
     "level_text": "Exploration over sampled pipelines/schedules and composite histories.",
     "level_note": "Trusted: probe, tracked child subscription, explorer.",
     "design_ref": "DESIGN.md §5 C17",
-    "require": {"quick": {"appends_after_unsubscribe": 3000, "runs_where_is_closed_returned_true": 20000, "subscription_types_covered": 13, "histories_with_an_append_during_teardown": 5000, "composite_thread_races": 4000, "thread_schedules": 4000, "is_closed_sampling_races": 4000}, "thorough": {"subscription_types_covered": 13, "composite_thread_races": 200000, "thread_schedules": 150000, "is_closed_sampling_races": 150000}},
+    "require": {"quick": {"appends_after_unsubscribe": 3000, "runs_where_is_closed_returned_true": 20000, "subscription_types_covered": 13, "histories_with_an_append_during_teardown": 5000, "histories_with_a_child_added_to_a_nested_composite": 5000, "composite_thread_races": 4000, "thread_schedules": 4000, "is_closed_sampling_races": 4000}, "thorough": {"subscription_types_covered": 13, "composite_thread_races": 200000, "thread_schedules": 150000, "is_closed_sampling_races": 150000}},
 }
 
 META["C18"] = {
